@@ -15,6 +15,7 @@ structure State where
   pipeValid : Bool := false
   pipePol : Policy := { mode := .off, caps := KTab.const 0 }
   failed : List Nat := []
+  pipeFlat : Bool := false        -- the cache's internal queries go to an executor that does not chase aliases
   pipeFwd : Bool := false         -- forwarder mode
   pipeFO : Bool := false          -- failover middleware with one fallback server
   answered : List Nat := []       -- names a fallback answer is cached for
@@ -125,8 +126,18 @@ def step (st : State) (w : List String) : State × String :=
     match parseCsv raw, parseCsv dflt with
     | some r, some d =>
       match policyFromConfig mode r d with
-      | some p => ({ st with pipeValid := true, pipePol := p, failed := [], answered := [], pipeFO := opts == ["failover"], pipeFwd := opts == ["forwarder"] }, polStr p)
+      | some p => ({ st with pipeValid := true, pipePol := p, failed := [], answered := [], pipeFO := opts == ["failover"], pipeFwd := opts == ["forwarder"], pipeFlat := opts == ["flatq"] }, polStr p)
       | none => ({ st with pipeValid := false }, "invalid")
+    | _, _ => (st, "bad-op")
+  | ["pipe", "rho", _id, tail, cyc, _edns, _client] =>
+    if !st.pipeFlat then (st, "unmodelled") else
+    match tail.toNat?, cyc.toNat? with
+    | some tail, some cyc =>
+      -- one chase level: the queried name is node s, its alias target s-1; node 0 points back at node cyc-1
+      let s := tail + cyc - 1
+      let next : Nat → Option Nat := fun t => if t = 0 then some (cyc - 1) else some (t - 1)
+      let hops := (chaseLevel next 10 [s] (s - 1)).length - 1
+      (st, s!"rcode={if hops < 10 then 2 else 0} hops={hops}")
     | _, _ => (st, "bad-op")
   | ["pipe", "late", _id, k, during, after] =>
     match parseKind k, during.toNat?, after.toNat? with
